@@ -424,6 +424,9 @@ def lean_ty(t):
 
 ERR_NAMES = {"MaxNFracDigitsExceeded": "maxNFracDigitsExceeded", "InternalOverflow": "internalOverflow",
              "InfiniteValue": "infiniteValue", "NotANumber": "notANumber", "DivisionByZero": "divisionByZero"}
+# methods of `Decimal` that kernels call; they are modelled by hand: name -> (result type, Lean head, monadic?)
+DEC_METHODS = {"eq_zero": ("bool", "Model.eqZero", False), "eq_one": ("bool", "Model.eqOne", True),
+               "is_negative": ("bool", "Model.isNegative", False), "is_positive": ("bool", "Model.isPositive", False)}
 STRUCT_FIELDS = {"coeff": ("i128", "coeff"), "n_frac_digits": ("u8", "nfrac")}
 MODE_NAMES = {"Round05Up": ".r05up", "RoundCeiling": ".ceil", "RoundDown": ".down", "RoundFloor": ".floor",
               "RoundHalfDown": ".hdown", "RoundHalfEven": ".heven", "RoundHalfUp": ".hup", "RoundUp": ".up"}
@@ -530,6 +533,8 @@ class Emit:
                 return ("tuple", [rt, rt])
             if m == "cmp":
                 return "Ordering"
+            if rt == "Decimal" and m in DEC_METHODS:
+                return DEC_METHODS[m][0]
             if m == "map":
                 return ("Option", "Decimal")
             if m == "to_bits" and isinstance(rt, str):
@@ -547,6 +552,8 @@ class Emit:
                 return hint
             if n == "from" and len(e[1]) == 2 and e[1][0] in INT_TYPES:
                 return e[1][0]
+            if len(e[1]) == 2 and e[1][0] in INT_TYPES and re.match(r"checked_", n):
+                return ("Option", e[1][0])
             if n in MUT_PARAMS and (n in self.sigs or n in EXTERNAL):
                 rt = (self.sigs.get(n) or EXTERNAL[n])[1]
                 return rt[1][-1] if isinstance(rt, tuple) and rt[0] == "tuple" else rt
@@ -840,6 +847,12 @@ class Emit:
                 raise Unsupported("effect inside a closure")
             return lr, f"(Option.map (fun {ps[0]} => {xb}) ({xr}))"
         t = self.type_of(recv, hint)
+        if t == "Decimal" and m in DEC_METHODS and not args:
+            lr, xr = self.ex(recv, "Decimal")
+            if DEC_METHODS[m][2]:
+                v = self.fresh()
+                return lr + [f"let {v} ← {DEC_METHODS[m][1]} ({xr})"], v
+            return lr, f"({DEC_METHODS[m][1]} ({xr}))"
         lr, xr = self.ex(recv, hint)
         ls, xs = list(lr), []
         for a in args:
@@ -888,6 +901,8 @@ class Emit:
     def call(self, e, hint):
         _, path, args = e
         n = path[-1]
+        if len(path) == 2 and path[0] in INT_TYPES and re.match(r"(checked|wrapping|saturating)_", n) and len(args) == 2:
+            return self.method(("method", ("cast", args[0], path[0]) if False else args[0], n, args[1:]), hint)
         if path == ["RoundingMode", "default"]:
             self.needs_tm = True
             return [], "tm"
@@ -1171,6 +1186,11 @@ class Emit:
             return list(b[1]) + ([("expr", b[2])] if b[2] is not None else [])
         return [("expr", b)]
 
+    @staticmethod
+    def diverges(blk):
+        last = blk[2] if blk[2] is not None else (blk[1][-1][1] if blk[1] and blk[1][-1][0] == "expr" else None)
+        return last is not None and last[0] == "macro" and last[1] == "panic"
+
     def has_return(self, blk):
         return any(s[0] == "expr" and s[1][0] == "return" for s in blk[1]) or (blk[2] is not None and blk[2][0] == "return")
 
@@ -1179,7 +1199,7 @@ class Emit:
         _, c, th, el = e
         lc, xc = self.cond(c)
         pre = "".join(f"{pad}{l}\n" for l in lc)
-        if self.has_return(th) and el is None:
+        if (self.has_return(th) or self.diverges(th)) and el is None:
             # `if c { …; return x; }` followed by the rest
             thn = self.stmts_term(list(th[1]), th[2], ind + 1, None)
             els = self.stmts_term(rest, tail, ind + 1, k)
@@ -1322,7 +1342,8 @@ class Emit:
 
 # ----------------------------------------------------------------------------- driver
 GROUP_IMPORTS = {"KPow": ["Fpdec.Gen.Consts"], "KDivRounded": ["Fpdec.Gen.KRound", "Fpdec.Gen.KPow", "Fpdec.Model.Core"],
-                 "KDecDiv": ["Fpdec.Gen.KDivRounded"], "KDecMul": ["Fpdec.Gen.KDivRounded", "Fpdec.Model.Decimal"], "KNorm": [], "KDecRound": ["Fpdec.Gen.KDivRounded", "Fpdec.Model.Decimal"],
+                 "KDecDiv": ["Fpdec.Gen.KDivRounded"], "KDecMul": ["Fpdec.Gen.KDivRounded", "Fpdec.Model.Decimal"], "KNorm": [], "KDecOps": ["Fpdec.Gen.KDecDiv", "Fpdec.Gen.KDecMul", "Fpdec.Gen.KNorm", "Fpdec.Gen.Consts", "Fpdec.Model.Decimal"],
+                 "KDecRound": ["Fpdec.Gen.KDivRounded", "Fpdec.Model.Decimal"],
                  "KFloat": ["Fpdec.Gen.KNorm", "Fpdec.Gen.Consts", "Fpdec.Model.Core", "Fpdec.Model.Decimal"], "KRem": ["Fpdec.Gen.KPow"],
                  "KWideDiv": ["Fpdec.Gen.KWide", "Fpdec.Gen.KPow", "Fpdec.Gen.Consts", "Fpdec.Model.Core"]}
 LOOP_FUEL.update({("normalize", 1): 256, ("approx_rational", 1): 32, ("rem", 1): 256,
@@ -1343,6 +1364,12 @@ KERNELS = [
     ("KDecDiv", "src/binops/div_rounded.rs", "checked_div_rounded", None),
     ("KDecMul", "src/binops/mul_rounded.rs", "checked_mul_rounded", None),
     ("KNorm", "src/lib.rs", "normalize", None),
+    ("KDecOps", "src/binops/mul.rs", "mul", "Decimal", {"as": "decimal_mul"}),
+    ("KDecOps", "src/binops/checked_mul.rs", "checked_mul", "Decimal", {"as": "decimal_checked_mul", "ret": ("Option", "Decimal")}),
+    ("KDecOps", "src/binops/mul_rounded.rs", "mul_rounded", "Decimal", {"as": "decimal_mul_rounded"}),
+    ("KDecOps", "src/binops/div.rs", "div", "Decimal", {"as": "decimal_div"}),
+    ("KDecOps", "src/binops/checked_div.rs", "checked_div", "Decimal", {"as": "decimal_checked_div", "ret": ("Option", "Decimal")}),
+    ("KDecOps", "src/binops/div_rounded.rs", "div_rounded", "Decimal", {"as": "decimal_div_rounded"}),
     ("KDecRound", "src/round.rs", "round", "Decimal", {"as": "decimal_round"}),
     ("KDecRound", "src/round.rs", "checked_round", "Decimal", {"as": "decimal_checked_round"}),
     ("KFloat", "src/from_float.rs", "approx_rational", None),
@@ -1401,6 +1428,8 @@ def translate(repo):
             return selfty
         if t == "Error":
             return "DecimalError"
+        if t == "Output":
+            return selfty
         if isinstance(t, tuple) and t[0] == "tuple":
             return ("tuple", [sub(x, selfty) for x in t[1]])
         if isinstance(t, tuple):
@@ -1418,7 +1447,7 @@ def translate(repo):
                 srcs[f] = (repo / f).read_text()
             params, ret, body = parse_fn(srcs[f], fname, opts.get("occ", 0), name)
             params = [(n, sub(t, selfty)) for n, t in params]
-            ret = sub(ret, selfty)
+            ret = opts["ret"] if "ret" in opts else sub(ret, selfty)
             parsed[name] = (params, ret, body, selfty)
             sigs[name] = (params, ret, None)
         except Exception as e:                      # noqa: BLE001 — any failure becomes a stub whose tie cannot be proved
